@@ -425,3 +425,67 @@ pub fn reinsert(property: &'static str) -> ReplCell {
     ];
     c
 }
+
+/// Entities with three continuously replicated components (A, B, Big): several of them pending
+/// as mutations while another is inserted or removed in the same tick, with one or two clients
+/// whose acknowledgement state differs.
+pub fn three_comps(property: &'static str, clients: usize) -> ReplCell {
+    let mut c = base(&format!("three-comps-{clients}c"), property);
+    c.cfg.with_big = true;
+    c.cfg.clients = vec![1200; clients];
+    c.init = vec![Op::Spawn(0, AB), Op::InsBig(0, 8), Op::Spawn(1, M_A)];
+    c.ops_per_round = 2;
+    c.alphabet = vec![
+        Op::Nop,
+        Op::Mut(0, TA),
+        Op::Mut(0, TB),
+        Op::MutBig(0, 8),
+        Op::Rm(0, TB),
+        Op::Ins(0, TB),
+        Op::Mut(1, TA),
+    ];
+    c.rounds = 2;
+    c.tick_choice = false;
+    c.env = Env {
+        hold_acks: true,
+        hold_updates: 1,
+        mutations: MutMenu::Hold,
+        leftover_choice: false,
+        lossy: false,
+    };
+    c
+}
+
+/// Two entities in the same archetype (e1 first) under a list policy; e2's visibility for the
+/// client is gained / lost in the same tick in which its neighbour e1 is mutated.
+pub fn vis_neighbour(property: &'static str, vis: Vis) -> ReplCell {
+    let tag = if vis == Vis::Blacklist { "black" } else { "white" };
+    let mut c = base(&format!("vis-neighbour-{tag}"), property);
+    c.cfg.vis = vis;
+    c.init = vec![Op::Spawn(0, M_A), Op::Spawn(1, M_A), Op::Spawn(2, M_A)];
+    if vis == Vis::Whitelist {
+        c.init.push(Op::Vis(0, 0, true));
+        c.init.push(Op::Vis(0, 2, true));
+    } else {
+        c.init.push(Op::Vis(0, 1, false));
+    }
+    c.ops_per_round = 2;
+    c.alphabet = vec![
+        Op::Nop,
+        Op::Mut(0, TA),
+        Op::Mut(1, TA),
+        Op::Mut(2, TA),
+        Op::Vis(0, 1, true),
+        Op::Vis(0, 1, false),
+        Op::Vis(0, 2, false),
+    ];
+    c.rounds = 2;
+    c.env = Env {
+        hold_acks: false,
+        hold_updates: 1,
+        mutations: MutMenu::Hold,
+        leftover_choice: false,
+        lossy: false,
+    };
+    c
+}
